@@ -57,6 +57,58 @@ TNext ==
   \/ Is("U_YieldCall") /\ UYieldCall(ew, A(1), A(2))
   \/ Is("U_YieldRet") /\ UYieldRet(ew, A(1))
   \/ Is("U_MainEnd") /\ UMainEnd(ew)
+  \/ Is("YieldBeg") /\ YieldBeg(ew, A(1), A(2))
+  \/ Is("YieldEnd") /\ YieldEnd(ew, A(1))
+  \* ---- synchronisation primitives
+  \/ Is("Block") /\ Block(ew, A(1), A(2), A(3))
+  \/ Is("SqEnq") /\ SqEnq(ew, A(1), A(2))
+  \/ Is("SqDeq") /\ SqDeq(ew, A(1), A(2))
+  \/ Is("StPush") /\ StPush(ew, A(1), A(2))
+  \/ Is("StPop") /\ StPop(ew, A(1), A(2))
+  \/ Is("MxLd") /\ MxLd(ew, A(1), A(2), A(3))
+  \/ Is("MxCas") /\ MxCas(ew, A(1), A(2), A(3), A(4))
+  \/ Is("MxWake") /\ MxWake(ew, A(1), A(2))
+  \/ Is("MxClr") /\ MxClr(ew, A(1))
+  \/ Is("U_LockCall") /\ ULockCall(ew, A(1), A(2))
+  \/ Is("U_LockRet") /\ ULockRet(ew, A(1), A(2))
+  \/ Is("U_TryLockCall") /\ UTryLockCall(ew, A(1), A(2))
+  \/ Is("U_TryLockRet") /\ UTryLockRet(ew, A(1), A(2), A(3))
+  \/ Is("U_UnlockCall") /\ UUnlockCall(ew, A(1), A(2))
+  \/ Is("U_UnlockRet") /\ UUnlockRet(ew, A(1), A(2))
+  \/ Is("U_CondWaitCall") /\ UCondWaitCall(ew, A(1), A(2), A(3))
+  \/ Is("CvWait") /\ CvWait(ew, A(1), A(2), A(3))
+  \/ Is("U_CondWaitRet") /\ UCondWaitRet(ew, A(1), A(2), A(3))
+  \/ Is("U_CondSignalCall") /\ UCondSignalCall(ew, A(1), A(2), A(3))
+  \/ Is("CvSignal") /\ CvSignal(ew, A(1), A(2), A(3))
+  \/ Is("U_CondSignalRet") /\ UCondSignalRet(ew, A(1), A(2))
+  \/ Is("U_BarrierCall") /\ UBarrierCall(ew, A(1), A(2))
+  \/ Is("BrLd") /\ BrLd(ew, A(1), A(2), A(3))
+  \/ Is("BrCas") /\ BrCas(ew, A(1), A(2), A(3))
+  \/ Is("BrReset") /\ BrReset(ew, A(1))
+  \/ Is("BrWake") /\ BrWake(ew, A(1), A(2), A(3))
+  \/ Is("U_BarrierRet") /\ UBarrierRet(ew, A(1), A(2), A(3), A(4))
+  \/ Is("JcInit") /\ JcInit(ew, A(1), A(2), A(3), A(4))
+  \/ Is("U_JcWaitCall") /\ UJcWaitCall(ew, A(1), A(2))
+  \/ Is("JcLd") /\ JcLd(ew, A(1), A(2), A(3), A(4), A(5))
+  \/ Is("JcCas") /\ JcCas(ew, A(1), A(2), A(3), A(4))
+  \/ Is("JcWake") /\ JcWake(ew, A(1), A(2), A(3))
+  \/ Is("U_JcWaitRet") /\ UJcWaitRet(ew, A(1), A(2), A(3))
+  \/ Is("U_JcDecCall") /\ UJcDecCall(ew, A(1), A(2))
+  \/ Is("U_JcDecRet") /\ UJcDecRet(ew, A(1), A(2))
+  \/ Is("U_UcWaitCall") /\ UUcWaitCall(ew, A(1), A(2))
+  \/ Is("UcPub") /\ UcPub(ew, A(1), A(2))
+  \/ Is("U_UcWaitRet") /\ UUcWaitRet(ew, A(1), A(2))
+  \/ Is("U_UcSignalCall") /\ UUcSignalCall(ew, A(1), A(2))
+  \/ Is("UcLd") /\ UcLd(ew, A(1), A(2))
+  \/ Is("UcClr") /\ UcClr(ew, A(1))
+  \/ Is("U_UcSignalRet") /\ UUcSignalRet(ew, A(1), A(2))
+  \/ Is("U_OnceCall") /\ UOnceCall(ew, A(1), A(2))
+  \/ Is("OnLd") /\ OnLd(ew, A(1), A(2))
+  \/ Is("OnCas") /\ OnCas(ew, A(1), A(2))
+  \/ Is("U_OnceBody") /\ UOnceBody(ew, A(1))
+  \/ Is("U_OnceBodyEnd") /\ UOnceBodyEnd(ew, A(1))
+  \/ Is("OnDone") /\ OnDone(ew, A(1))
+  \/ Is("U_OnceRet") /\ UOnceRet(ew, A(1), A(2))
 
 TSpec == TInit /\ [][TNext]_tvars
 
